@@ -21,8 +21,8 @@ def seeded_table():
         first = ""
         for k, v in m.get("caught_by", {}).items():
             if v.get("violation"):
-                first = v.get("first", "").split(":")
-                first = ":".join(first[:2]).strip()[:60]
+                m2 = re.match(r"^(\w+): (\S+?):? ", v.get("first", "") + " ")
+                first = f"{m2.group(1)}: {m2.group(2).rstrip(':')}" if m2 else v.get("first", "")[:60]
                 break
         hist = m.get("history", "")
         rows.append(f"| {sid} | {m.get('property')} | {notes} | "
